@@ -5,8 +5,10 @@ import (
 	"cmp"
 	"errors"
 	"fmt"
+	"io"
 	"iter"
 	"sort"
+	"strings"
 
 	"seehuhn.de/go/pdf"
 	"seehuhn.de/go/pdf/nametree"
@@ -27,6 +29,10 @@ type spec struct {
 	// next to leaf boundaries and a 3% sample of the rest (quick tier, big
 	// trees); "" = everything
 	Probe string `json:"probe,omitempty"`
+	// Ctx is the state of the pdf.Writer around the write: "" (nothing else going on), "stream"
+	// (the tree is written while a stream is open on the Writer, so every Put is queued),
+	// "puts" (other objects are Put between the entries), "stream+puts"
+	Ctx string `json:"ctx,omitempty"`
 	// Mem, if set, makes the case a script on ONE in-memory tree value (see mem.go)
 	Mem *memSpec `json:"mem,omitempty"`
 }
@@ -42,6 +48,9 @@ func (s spec) id() string {
 	id := fmt.Sprintf("%s/%s/%s/n=%d", s.kind(), s.API, s.Style, s.N)
 	if s.Bad != "" {
 		id += fmt.Sprintf("/%s@%d", s.Bad, s.At)
+	}
+	if s.Ctx != "" {
+		id += "/ctx=" + s.Ctx
 	}
 	if s.Mem != nil {
 		id += "/" + s.Mem.String()
@@ -70,30 +79,64 @@ type node struct {
 
 // record is judged by Trace_KeyTree.
 type record struct {
-	Seq      int     `json:"seq"`
-	ID       string  `json:"id"`
-	Kind     string  `json:"kind"`
-	API      string  `json:"api"`
-	Ord      [][]int `json:"ord"`
-	Val      []int   `json:"val"`
-	Input    []int   `json:"input"`
-	Accepted bool    `json:"accepted"`
-	RootNull bool    `json:"rootnull"`
-	Root     int     `json:"root"`
-	Nodes    []node  `json:"nodes"`
-	LK       []int   `json:"lk"`
-	ML       []int   `json:"ml"`
-	AllK     []int   `json:"allk"`
-	AllV     []int   `json:"allv"`
-	MAllK    []int   `json:"mallk"`
-	MAllV    []int   `json:"mallv"`
-	Size     int     `json:"size"`
-	Sampled  bool    `json:"sampled"`
+	Seq      int       `json:"seq"`
+	ID       string    `json:"id"`
+	Kind     string    `json:"kind"`
+	API      string    `json:"api"`
+	Ord      [][]int   `json:"ord"`
+	Val      []int     `json:"val"`
+	Input    []int     `json:"input"`
+	Accepted bool      `json:"accepted"`
+	RootNull bool      `json:"rootnull"`
+	Root     int       `json:"root"`
+	Nodes    []node    `json:"nodes"`
+	LK       []int     `json:"lk"`
+	ML       []int     `json:"ml"`
+	AllK     []int     `json:"allk"`
+	AllV     []int     `json:"allv"`
+	MAllK    []int     `json:"mallk"`
+	MAllV    []int     `json:"mallv"`
+	Size     int       `json:"size"`
+	Sampled  bool      `json:"sampled"`
+	Exits    []exitRec `json:"exits"`
 	// the in-memory value itself (multi-step cases): its All() and Lookup after the edits
 	Mem   bool  `json:"mem"`
 	VAllK []int `json:"vallk"`
 	VAllV []int `json:"vallv"`
 	VL    []int `json:"vl"`
+}
+
+// exitRec: All() consumed by a function that returns false from its K-th call
+// on; everything it was called with (also after the stop), for the streaming
+// (S) and the in-memory (M) reader; SP/MP = 1 if a range loop breaking at its
+// K-th iteration panicked.
+type exitRec struct {
+	K  int   `json:"k"`
+	SK []int `json:"sk"`
+	SV []int `json:"sv"`
+	MK []int `json:"mk"`
+	MV []int `json:"mv"`
+	SP int   `json:"sp"`
+	MP int   `json:"mp"`
+}
+
+// exitPoints: where the consumer stops (around leaf and subtree boundaries, at the ends).
+func exitPoints(n int) []int {
+	if n == 0 {
+		return []int{1}
+	}
+	set := map[int]bool{}
+	for _, k := range []int{1, 2, 63, 64, 65, 127, 128, 129, 4031, 4032, 4033, 4095, 4096, 4097, 8191, 8192, 8193, n - 1, n} {
+		if k >= 1 && k <= n {
+			set[k] = true
+		}
+	}
+	var out []int
+	for k := range set {
+		out = append(out, k)
+	}
+	sort.Ints(out)
+	return out
 }
 
 // observation is everything the harness learned about one case.
@@ -403,6 +446,27 @@ func examine[K cmp.Ordered](s spec, api treeAPI[K], in caseInput, memVal reader[
 		ob.Evals++
 	}
 
+	// --- the state of the Writer around the write
+	withStream, withPuts := strings.Contains(s.Ctx, "stream"), strings.Contains(s.Ctx, "puts")
+	otherPut := func(i int) {
+		if err := w.Put(w.Alloc(), pdf.Dict{"Other": pdf.Integer(i), "A": pdf.Array{pdf.String("x"), pdf.Integer(i)}}); err != nil && putErr == nil {
+			putErr = err
+		}
+	}
+	var stm io.WriteCloser
+	if withStream {
+		stm, err = w.OpenStream(w.Alloc(), pdf.Dict{"Other": pdf.Name("Stream")})
+		if err != nil {
+			return nil, fmt.Errorf("OpenStream: %v", err)
+		}
+		if _, err := stm.Write([]byte("q 1 0 0 1 0 0 cm ")); err != nil {
+			return nil, err
+		}
+	}
+	if withPuts {
+		otherPut(-1)
+	}
+
 	var rootRef pdf.Reference
 	var werr error
 	switch s.API {
@@ -419,14 +483,31 @@ func examine[K cmp.Ordered](s spec, api treeAPI[K], in caseInput, memVal reader[
 		rootRef, werr = api.writeMap(w, m)
 	default:
 		seq := func(yield func(K, pdf.Object) bool) {
-			for _, k := range input {
+			for i, k := range input {
 				ob.Consumed++
+				if withPuts && i%17 == 16 {
+					otherPut(i)
+				}
 				if !yield(api.toK(k), objs[k]) {
 					return
 				}
 			}
 		}
 		rootRef, werr = api.write(w, seq)
+	}
+	if withPuts {
+		otherPut(-2)
+	}
+	if withStream {
+		if _, err := stm.Write([]byte("Q")); err != nil {
+			return nil, err
+		}
+		if err := stm.Close(); err != nil {
+			return nil, fmt.Errorf("closing the other stream: %v", err)
+		}
+	}
+	if putErr != nil {
+		return nil, putErr
 	}
 	ob.Evals++
 	rec.Accepted = werr == nil
@@ -481,6 +562,7 @@ func examine[K cmp.Ordered](s spec, api treeAPI[K], in caseInput, memVal reader[
 
 	// --- the real readers
 	var all, mall ans
+	var exits []exitCalls
 	var ff, mem reader[K]
 	if werr == nil {
 		var e1, e2 error
@@ -506,6 +588,15 @@ func examine[K cmp.Ordered](s spec, api treeAPI[K], in caseInput, memVal reader[
 		}
 		rec.Size = n
 		ob.Evals += 3
+		for _, k := range exitPoints(len(written)) {
+			var e exitCalls
+			e.k = k
+			e.sk, e.sv = stopAt(ff, k, func(v pdf.Object) int { return vidOf(r, v) }, api.fromK)
+			e.mk, e.mv = stopAt(mem, k, func(v pdf.Object) int { return vidOf(r, v) }, api.fromK)
+			e.sp, e.mp = breakAt(ff, k), breakAt(mem, k)
+			exits = append(exits, e)
+			ob.Evals += 4
+		}
 	}
 
 	// --- ranks: every concrete key seen anywhere, in reference order
@@ -517,7 +608,11 @@ func examine[K cmp.Ordered](s spec, api treeAPI[K], in caseInput, memVal reader[
 			union = append(union, k)
 		}
 	}
-	for _, ks := range [][]ckey{written, input, probes, all.keys, mall.keys, vall.keys} {
+	keyLists := [][]ckey{written, input, probes, all.keys, mall.keys, vall.keys}
+	for _, e := range exits {
+		keyLists = append(keyLists, e.sk, e.mk)
+	}
+	for _, ks := range keyLists {
 		for _, k := range ks {
 			addKey(k)
 		}
@@ -570,6 +665,10 @@ func examine[K cmp.Ordered](s spec, api treeAPI[K], in caseInput, memVal reader[
 		rec.Root = 1
 	}
 	rec.AllK, rec.AllV, rec.MAllK, rec.MAllV = ranks(all.keys), nn(all.vals), ranks(mall.keys), nn(mall.vals)
+	rec.Exits = []exitRec{}
+	for _, e := range exits {
+		rec.Exits = append(rec.Exits, exitRec{K: e.k, SK: ranks(e.sk), SV: nn(e.sv), MK: ranks(e.mk), MV: nn(e.mv), SP: e.sp, MP: e.mp})
+	}
 	if memVal != nil {
 		rec.VAllK, rec.VAllV = ranks(vall.keys), nn(vall.vals)
 		for _, k := range union {
@@ -631,6 +730,45 @@ func examine[K cmp.Ordered](s spec, api treeAPI[K], in caseInput, memVal reader[
 		ob.Evals += len(union)
 	}
 	return ob, nil
+}
+
+type exitCalls struct {
+	k      int
+	sk, mk []ckey
+	sv, mv []int
+	sp, mp int
+}
+
+// stopAt consumes t.All() with a function that returns false from its k-th
+// call on, and returns everything the function was called with.
+func stopAt[K cmp.Ordered](t reader[K], k int, vid func(pdf.Object) int, fromK func(K) ckey) (keys []ckey, vals []int) {
+	defer func() { _ = recover() }()
+	t.All()(func(key K, v pdf.Object) bool {
+		if len(keys) < k+70 { // enough to show calls after the stop
+			keys = append(keys, fromK(key))
+			vals = append(vals, vid(v))
+		}
+		return len(keys) < k
+	})
+	return keys, vals
+}
+
+// breakAt runs a range loop over t.All() that breaks at its k-th iteration;
+// 1 if that panics ("range function continued iteration ...").
+func breakAt[K cmp.Ordered](t reader[K], k int) (panicked int) {
+	defer func() {
+		if recover() != nil {
+			panicked = 1
+		}
+	}()
+	i := 0
+	for range t.All() {
+		i++
+		if i >= k {
+			break
+		}
+	}
+	return 0
 }
 
 // walk extracts every node dictionary reachable from root.  Nodes are numbered
